@@ -57,6 +57,14 @@ def replay(ctx, doc):
         for f in hit:
             print("implementation:", f["what"])
         return bool(hit)
+    if doc["failure"]["input"].get("family") == "stat-fallback":
+        r = Result()
+        c19_parsers.stat_fallback_cases(ctx, r)
+        want = doc["failure"]["input"]
+        hit = [f for f in r.oracle_failures if f["input"] == want]
+        for f in hit:
+            print("implementation:", f["what"])
+        return bool(hit)
     if doc["failure"]["input"].get("kind") == "control-bytes":
         from . import c19_server
 
